@@ -61,7 +61,7 @@ fn run_break_formula(e: &Sexp) -> R<Sexp> {
     Ok(conv::theory(&brk::break_equivalences_formula(conv::parse_formula(e)?)))
 }
 fn gen_break_theory(rng: &mut Rng) -> Sexp {
-    let n = rng.below(4);
+    let n = g::count(rng, 3);
     conv::theory(&fol::Theory { formulas: (0..n).map(|_| breakable_formula(rng)).collect() })
 }
 fn run_break_theory(e: &Sexp) -> R<Sexp> {
@@ -97,11 +97,22 @@ fn gen_problem(rng: &mut Rng) -> pb::Problem {
         max_arity: 1,
         ..g::Cfg::tight()
     };
-    let n = rng.below(6);
+    // 4 %: 11-14 formulas, mostly conjectures: sub-problem names `{name}_{i}` and `formula_{i}` names with
+    // two-digit indices (audit 2, B16: every printed index was one digit)
+    let many = rng.chance(4);
+    let n = if many { 11 + rng.below(4) } else { g::count(rng, 5) };
     pb::Problem {
         name: rng.pick(&["problem", "", "forward", "_x"]).to_string(),
         interpretation: pb::Interpretation::Standard,
-        formulas: (0..n).map(|_| gen_pformula(rng, &cfg)).collect(),
+        formulas: (0..n)
+            .map(|_| {
+                let mut f = gen_pformula(rng, &cfg);
+                if many && rng.chance(85) {
+                    f.role = pb::Role::Conjecture;
+                }
+                f
+            })
+            .collect(),
     }
 }
 fn gen_problem_decompose(rng: &mut Rng) -> Sexp {
